@@ -90,23 +90,16 @@ Proof.
   change ((8 * (8 + 65535 * 32) + 65535 + 7) / 8) with 2105320 in D. lia.
 Qed.
 
-(* one chunk of n whole PCM frames: Encoder::encode succeeds and the invariants carry on *)
-Lemma chunk_step_ok e0 e K bs c :
-  good e0 e K -> K < 2 ^ 36 -> bs <= 65535 -> chunk_cond bps ch bs c ->
-  (match si_total (e_si e0) with Some t => true_samples e + N.of_nat (length c) / ch <= t | None => True end) ->
-  exists e', sample_encode_chunk (encB o L rate bps) p ch (bytes_per_sample_of bps) e c = Ok e' /\
-             good e0 e' (K + 1) /\ true_samples e' = true_samples e + N.of_nat (length c) / ch.
+(* one block in range handed to Encoder::encode (after the front-end fed the MD5): it succeeds and the invariants
+   carry on — shared by the three front-ends *)
+Lemma block_step_ok e0 e K x (b : block) n :
+  good e0 e K -> K < 2 ^ 36 -> EP.block_ok si0 bps b -> length b = N.to_nat ch ->
+  EN.block_len b = N.of_nat n -> (1 <= n)%nat -> N.of_nat n <= 65535 ->
+  (match si_total (e_si e0) with Some t => true_samples e + N.of_nat n <= t | None => True end) ->
+  exists e', encoder_encode (encB o L rate bps) p (md5_consume e x) b = Ok e' /\
+             good e0 e' (K + 1) /\ true_samples e' = true_samples e + N.of_nat n.
 Proof.
-  intros (I & S & Fn & Se & HK & Hs & Hby) HK36 Hbs (n & Hn & Hnb & Hlen & Hfit) Htot.
-  assert (En : N.of_nat (length c) / ch = N.of_nat n).
-  { rewrite Hlen. rewrite Nat2N.inj_mul, N2Nat.id. rewrite N.mul_comm. apply N.div_mul. lia. }
-  rewrite En in *.
-  unfold sample_encode_chunk.
-  destruct (update_md5_ok c) as [x ->]. cbn [bind].
-  destruct (fill_ok c n Hn Hlen) as [b Hfill]. rewrite Hfill. cbn [bind].
-  destruct (chunk_block_ok bps si0 ch 65535 c b n Hc1 Hc8 Hb1 Hb32 ltac:(lia) eq_refl eq_refl eq_refl Hn ltac:(lia) Hlen Hfit Hfill)
-    as (Hbok & _ & Hbl).
-  destruct (fill_from_samples_sem ch c n b Hc1 Hc8 Hn Hlen Hfill) as (Lb & _ & _ & _).
+  intros (I & S & Fn & Se & HK & Hs & Hby) HK36 Hbok Lb Hbl Hn Hnb Htot.
   assert (Ebl : block_len b = N.of_nat n) by (rewrite <- Hbl; destruct b; reflexivity).
   pose proof (md5_consume_inv e x I) as I'.
   set (e1 := md5_consume e x) in *.
@@ -115,19 +108,18 @@ Proof.
   assert (Enum : e_frame_number e1 = K) by (destruct I; cbn; lia).
   assert (Hpow : K * 65535 + 65535 < 2 ^ 64 /\ K * FB + FB < 2 ^ 64).
   { unfold FB. change (2 ^ 36) with 68719476736 in HK36. change (2 ^ 22) with 4194304. change (2 ^ 64) with 18446744073709551616. lia. }
-  unfold encoder_encode.
-  rewrite Ew, Ebl, u64_add_small by lia. cbn [bind].
   assert (Etot : si_total (e_si e1) = si_total (e_si e0)) by (destruct Se as (_ & _ & _ & _ & _ & _ & _ & _ & _ & T); exact T).
-  rewrite Etot.
   assert (Hchk : match si_total (e_si e0) with Some t => t <? true_samples e + N.of_nat n | None => false end = false).
   { destruct (si_total (e_si e0)); [apply N.ltb_ge; exact Htot|reflexivity]. }
-  rewrite Hchk. rewrite Lb, N2Nat.id. destruct (N.ltb_spec 8 ch); [lia|].
   destruct code_of_rate_some as [rc Hrc].
   destruct (EP.enc_frame_bytes_total o L si0 rate bps K b rc Hbok Hrc) as [bytes Hbytes].
   { unfold FlacCodec.Header.MAX_FRAME_NUMBER. lia. }
-  unfold encB at 1. rewrite Enum, Hbytes. cbn [bind].
   pose proof (EP.enc_frame_size o L si0 rate bps K b bytes Hbytes Hbok) as Hsz. cbv zeta in Hsz.
   pose proof (frame_size_le bytes n b Lb Hbl ltac:(lia) Hsz) as Hfb.
+  unfold encoder_encode.
+  rewrite Ew, Ebl, u64_add_small by lia. cbn [bind].
+  rewrite Etot, Hchk, Lb, N2Nat.id. destruct (N.ltb_spec 8 ch); [lia|].
+  unfold encB at 1. rewrite Enum, Hbytes. cbn [bind].
   rewrite Ec, u64_add_small by lia. cbn [bind].
   eexists. split; [reflexivity|].
   set (e' := {| e_prefix := e_prefix e1 |}).
@@ -154,6 +146,26 @@ Proof.
   split; [eapply static_eq_trans; [exact Se|exact Se1]|].
   split; [cbn [e' e_frames_rev length]; cbn [e1 md5_consume e_frames_rev]; lia|].
   rewrite Ts, Tb. split; lia.
+Qed.
+
+(* one chunk of n whole PCM frames: Encoder::encode succeeds and the invariants carry on *)
+Lemma chunk_step_ok e0 e K bs c :
+  good e0 e K -> K < 2 ^ 36 -> bs <= 65535 -> chunk_cond bps ch bs c ->
+  (match si_total (e_si e0) with Some t => true_samples e + N.of_nat (length c) / ch <= t | None => True end) ->
+  exists e', sample_encode_chunk (encB o L rate bps) p ch (bytes_per_sample_of bps) e c = Ok e' /\
+             good e0 e' (K + 1) /\ true_samples e' = true_samples e + N.of_nat (length c) / ch.
+Proof.
+  intros G HK36 Hbs (n & Hn & Hnb & Hlen & Hfit) Htot.
+  assert (En : N.of_nat (length c) / ch = N.of_nat n).
+  { rewrite Hlen. rewrite Nat2N.inj_mul, N2Nat.id. rewrite N.mul_comm. apply N.div_mul. lia. }
+  rewrite En in *.
+  unfold sample_encode_chunk.
+  destruct (update_md5_ok c) as [x ->]. cbn [bind].
+  destruct (fill_ok c n Hn Hlen) as [b Hfill]. rewrite Hfill. cbn [bind].
+  destruct (chunk_block_ok bps si0 ch 65535 c b n Hc1 Hc8 Hb1 Hb32 ltac:(lia) eq_refl eq_refl eq_refl Hn ltac:(lia) Hlen Hfit Hfill)
+    as (Hbok & _ & Hbl).
+  destruct (fill_from_samples_sem ch c n b Hc1 Hc8 Hn Hlen Hfill) as (Lb & _ & _ & _).
+  apply (block_step_ok e0 e K x b n G HK36 Hbok Lb Hbl Hn ltac:(lia) Htot).
 Qed.
 
 Definition frames_of (cl : list (list Z)) : N := fold_right (fun c a => N.of_nat (length c) / ch + a) 0 cl.
